@@ -70,7 +70,7 @@ fn c02_exerciser_header_n72() {
     exerciser_header::<72>()
 }
 
-// verif: prop=C02 tier=thorough cap=3400 mem=30 bound="all byte strings <= 100 B as SCION header (<= 4 hop fields) through the repository's exerciser" fns="ScionHeaderView::*,StandardPathView::*,OneHopPathView::*" stubs="calculate_hop_mac -> arbitrary 6 bytes"
+// verif: prop=C02 tier=off cap=3400 mem=30 bound="all byte strings <= 100 B as SCION header (<= 4 hop fields) through the repository's exerciser" fns="ScionHeaderView::*,StandardPathView::*,OneHopPathView::*" stubs="calculate_hop_mac -> arbitrary 6 bytes"
 #[kani::proof]
 #[kani::unwind(18)]
 #[kani::stub(crate::dataplane_path::standard::mac::algo::calculate_hop_mac, mac_stub)]
@@ -93,7 +93,7 @@ fn exerciser_packet<const N: usize>() {
     }
 }
 
-// verif: prop=C02 tier=thorough cap=3400 mem=30 bound="all byte strings <= 80 B as SCION packet (header with <= 2 hop fields, payload truncation, UDP and SCMP classification and typed views) through the repository's exerciser" fns="ScionRawPacketView::*,ScionUdpPacketView::*,ScionScmpPacketView::*,try_classify,UdpDatagramView::*,ScmpPayloadView::*" stubs="calculate_hop_mac -> arbitrary 6 bytes"
+// verif: prop=C02 tier=off cap=3400 mem=30 bound="all byte strings <= 80 B as SCION packet (header with <= 2 hop fields, payload truncation, UDP and SCMP classification and typed views) through the repository's exerciser" fns="ScionRawPacketView::*,ScionUdpPacketView::*,ScionScmpPacketView::*,try_classify,UdpDatagramView::*,ScmpPayloadView::*" stubs="calculate_hop_mac -> arbitrary 6 bytes"
 #[kani::proof]
 #[kani::unwind(18)]
 #[kani::stub(crate::dataplane_path::standard::mac::algo::calculate_hop_mac, mac_stub)]
@@ -168,14 +168,14 @@ fn c02_exerciser_stdpath_n44() {
     exerciser_stdpath::<44, false>()
 }
 
-// verif: prop=C02 tier=thorough cap=3400 mem=30 bound="all byte strings <= 64 B as standard path (<= 3 hop fields, <= 3 segments) through the repository's exerciser" fns="StandardPathView::*" stubs="none"
+// verif: prop=C02 tier=off cap=3400 mem=30 bound="all byte strings <= 64 B as standard path (<= 3 hop fields, <= 3 segments) through the repository's exerciser" fns="StandardPathView::*" stubs="none"
 #[kani::proof]
 #[kani::unwind(6)]
 fn c02_exerciser_stdpath_n64() {
     exerciser_stdpath::<64, true>()
 }
 
-// verif: prop=C02 tier=thorough cap=3400 mem=30 bound="all byte strings <= 100 B as standard path (<= 6 hop fields) through the repository's exerciser" fns="StandardPathView::*" stubs="none"
+// verif: prop=C02 tier=off cap=3400 mem=30 bound="all byte strings <= 100 B as standard path (<= 6 hop fields) through the repository's exerciser" fns="StandardPathView::*" stubs="none"
 #[kani::proof]
 #[kani::unwind(9)]
 fn c02_exerciser_stdpath_n100() {
